@@ -11,6 +11,10 @@ tree (positions are kept, nothing is written back) so that every rule sees one s
   branch polarity   `if not c: A else: B` -> `if c: B else: A`; `if a != b: A else: B` -> `if a == b: B else: A`
                     (likewise `is not`, `not in`, and `<=` / `>=`, which become the strict comparison of the other
                     branch); the same for conditional expressions
+  keyword call      `f(a, y=b)` -> `f(a, b)` when f is a plain function of the same module and the keywords name its
+                    next positional parameters
+  one-line local    `t = e` followed at once by the simple statement that is the only reader of t (t bound nowhere
+                    else)                                                             ->  that statement with e in place of t
 
 All of these are semantics-preserving for the values the library computes with (Python scalars, NumPy scalars and
 arrays, identity tests); the comparison negations assume no NaN operand, which holds for the index / count / flag
@@ -46,6 +50,22 @@ def _negative(test):
 
 
 class Canon(ast.NodeTransformer):
+    def __init__(self, functions=None):
+        self.functions = functions or {}  # plain module-level functions: name -> positional parameter names
+
+    def visit_Call(self, node):
+        self.generic_visit(node)
+        # f(a, y=b) -> f(a, b) for a plain function f of the same module whose next positional parameters are the keywords
+        if isinstance(node.func, ast.Name) and node.func.id in self.functions and node.keywords and all(k.arg for k in node.keywords) \
+                and not any(isinstance(a, ast.Starred) for a in node.args):
+            ps = self.functions[node.func.id]
+            kw = {k.arg: k.value for k in node.keywords}
+            nxt = ps[len(node.args): len(node.args) + len(kw)]
+            if len(nxt) == len(kw) and set(nxt) == set(kw):
+                node.args = list(node.args) + [kw[p] for p in nxt]
+                node.keywords = []
+        return node
+
     def visit_Assign(self, node):
         self.generic_visit(node)
         if len(node.targets) == 1 and isinstance(node.targets[0], (ast.Name, ast.Subscript)) and isinstance(node.value, ast.BinOp) and isinstance(node.value.op, _AUG):
@@ -101,7 +121,61 @@ class Canon(ast.NodeTransformer):
         return node
 
 
+_SIMPLE = (ast.Assign, ast.AugAssign, ast.Return, ast.Expr, ast.AnnAssign)
+_SCOPES = (ast.Lambda, ast.ListComp, ast.SetComp, ast.DictComp, ast.GeneratorExp, ast.FunctionDef)
+
+
+def _inline_once_used(fn):
+    """`t = e` immediately followed by a simple statement that is the only reader of t (and t is bound nowhere else in
+    the function): the reader gets `e` in place of t and the binding goes.  A local that merely names a sub-expression
+    of the next line and the expression written in place are one and the same statement to the rules."""
+    loads, stores = {}, {}
+    for n in ast.walk(fn):
+        if isinstance(n, ast.Name):
+            (loads if isinstance(n.ctx, ast.Load) else stores).setdefault(n.id, []).append(n)
+    params = {a.arg for a in fn.args.posonlyargs + fn.args.args + fn.args.kwonlyargs}
+    declared = {x for s in ast.walk(fn) if isinstance(s, (ast.Global, ast.Nonlocal)) for x in s.names}
+
+    def block(body):
+        i = 0
+        while i + 1 < len(body):
+            st, nx = body[i], body[i + 1]
+            if isinstance(st, ast.Assign) and len(st.targets) == 1 and isinstance(st.targets[0], ast.Name) and isinstance(nx, _SIMPLE):
+                t = st.targets[0].id
+                if t not in params and t not in declared and len(stores.get(t, ())) == 1 and len(loads.get(t, ())) == 1:
+                    use = loads[t][0]
+                    hidden = {id(y) for x in ast.walk(nx) if isinstance(x, _SCOPES) for y in ast.walk(x)}
+                    inside = [x for x in ast.walk(nx) if x is use]
+                    is_target = isinstance(nx, ast.AugAssign) and nx.target is use
+                    if inside and id(use) not in hidden and not is_target:
+                        class _Sub(ast.NodeTransformer):
+                            def visit_Name(self, n):
+                                return st.value if n is use else n
+
+                        body[i + 1] = _Sub().visit(nx)
+                        del body[i]
+                        continue
+            i += 1
+        for s in body:
+            for field in ("body", "orelse", "finalbody"):
+                sub = getattr(s, field, None)
+                if isinstance(sub, list) and sub and isinstance(sub[0], ast.stmt) and not isinstance(s, (ast.FunctionDef, ast.ClassDef)):
+                    block(sub)
+            if isinstance(s, ast.Try):
+                for h in s.handlers:
+                    block(h.body)
+
+    block(fn.body)
+
+
 def canonical(tree):
-    tree = Canon().visit(tree)
+    for f in ast.walk(tree):
+        if isinstance(f, ast.FunctionDef):
+            _inline_once_used(f)
+    functions = {}
+    for f in tree.body:
+        if isinstance(f, ast.FunctionDef) and not f.args.vararg and not f.args.posonlyargs:
+            functions[f.name] = [a.arg for a in f.args.args]
+    tree = Canon(functions).visit(tree)
     ast.fix_missing_locations(tree)
     return tree
